@@ -73,6 +73,7 @@ LAYOUTS = {
     'uniform10': ([F(i) for i in range(10)], [F(0), F(3), F(6), F(9)]),
     'clustered8': ([F(0), F(1, 10), F(2, 10), F(1), F(2), F(21, 10), F(4), F(5)], [F(0), F(2), F(5)]),
     'dense6': ([F(i, 2) for i in range(6)], [F(0), F(5, 2)]),
+    'single8': ([F(i) for i in range(8)], [F(0), F(5, 2), F(7, 2), F(7)]),      # segment (2.5, 3.5] holds exactly one datum
     'gap9': ([F(0), F(1), F(2), F(3), F(10), F(11), F(12), F(13), F(14)], [F(0), F(7), F(14)]),
 }
 WEIGHTS = {
@@ -258,7 +259,7 @@ def obligations(tier, seed):
     obs = []
     q = tier == 'quick'
     combos = [('uniform8', 3, 'ones'), ('uniform8', 2, 'varied'), ('uniform10', 4, 'varied'), ('clustered8', 3, 'zero_mid'),
-              ('dense6', 2, 'zero_two'), ('uniform10', 3, 'zero_two')]
+              ('dense6', 2, 'zero_two'), ('uniform10', 3, 'zero_two'), ('single8', 2, 'varied'), ('single8', 3, 'ones')]
     if not q:
         combos += [(l, nord, wn) for l in ('uniform8', 'uniform10', 'clustered8') for nord in (1, 2, 3, 4) for wn in WEIGHTS
                    if (l, nord, wn) not in combos and not (nord == 1 and l != 'uniform8')]
